@@ -289,6 +289,8 @@ func runC13(c *Check) {
 	c.ruleSavedHashMovesOnlyWithPop("R16")
 	c.ruleBlockFiledUnderOwnHash("R17")
 	c.ruleRequestFilledWhereFound("R18")
+	c.ruleSizesSubtractedBeforeCut("R19")
+	c.ruleMembershipByHashOnly("R20")
 	c.ruleFilledRequestsGoOut("R12", "handlers.(*HeadersHandler).Handle", "spynode.(*Node).processBlocks")
 	c.ruleRemovedRangeIsCountedRange("R2", a.blocksRequested, a.pendingBlockSize)
 
